@@ -335,6 +335,14 @@ func checkC08(w *Worker) {
 		}
 		x.w.binMustAgree(x, c, r, "C08|"+name)
 	})
+	// ---- every special scenario (harness/specials.go) through every command shape
+	c08Specials := specialScenarios()
+	w.Explore("special-scenarios-x-commands", ExploreOpts{ShardDepth: 3, NoAudit: true}, func(x *Exec) {
+		sc := c08Specials[x.Choose(len(c08Specials), "input:scenario")]
+		ci := x.Choose(len(c08Cmds), "input:command")
+		x.Case(fmt.Sprint(sc.Name, ci), true)
+		runOne(x, map[string]string{"food.yaml": renderBook(sc.Book), "log.yaml": renderLog(sc.Log)}, c08Cmds[ci], "specials")
+	})
 	// ---- cycles of every length <= 4 and deep chains against every depth limit, incl. an absurd one
 	depths := []string{"1", "2", "3", "10", "100000", "2000000000"}
 	w.Explore("cycles-and-depth-limits", ExploreOpts{ShardDepth: 3, NoAudit: true}, func(x *Exec) {
